@@ -90,6 +90,21 @@ Definition eom_with (rd : h1conn -> kres) (server : bool) (c : h1conn) : kres :=
             (mark_done_with rd server server c)
   end.
 
+(* bytes at a head position that do not start a head: they stay in the buffer until some later token brings the
+   blank line that completes a (garbage) head; body pieces, malformed chunk headers and partial heads have none *)
+Fixpoint scan_junk (b : list tok) : option (list tok) :=
+  match b with
+  | [] => None
+  | (TD _ | TX | TP) :: r => scan_junk r
+  | (TH _ | THR _ | THB | TE) :: r => Some r
+  end.
+
+Fixpoint take_data (b : list tok) : bytes * list tok :=
+  match b with
+  | TD d :: r => let '(d2, r2) := take_data r in (d ++ d2, r2)
+  | _ => ([], b)
+  end.
+
 (* state(DataReceived): read_headers / read_body / wait / done over the token buffer *)
 Fixpoint h1_read (fuel : nat) (server : bool) (c : h1conn) : kres :=
   match fuel with
@@ -108,7 +123,10 @@ Fixpoint h1_read (fuel : nat) (server : bool) (c : h1conn) : kres :=
             | THR h :: rest =>
                 (set_c_state HDone (set_c_buf rest (set_c_req (Some h) c)),
                  [KErrPage 400; KClose false; KRecv (sid_of c) (EReqHeaders h false); KRecv (sid_of c) (EReqErr (Some 400))])
-            | _ => (c, [])
+            | b => match scan_junk b with
+                   | Some rest => (set_c_state HDone (set_c_buf rest c), [KErrPage 400; KClose false])
+                   | None => (c, [])
+                   end
             end
           else
             match c_req c with
@@ -120,13 +138,18 @@ Fixpoint h1_read (fuel : nat) (server : bool) (c : h1conn) : kres :=
                     let c1 := set_c_state HReadBody (set_c_reader (make_reader ex) (set_c_buf rest (set_c_resp (Some h) c))) in
                     kcons [KRecv (sid_of c) (ERespHeaders h (is_zero ex))] (rd c1)
                 | THB :: rest | THR _ :: rest => (set_c_buf rest c, [KClose false; recv_err server c])
-                | _ => (c, [])
+                | b => match scan_junk b with
+                       | Some rest => (set_c_buf rest c, [KClose false; recv_err server c])
+                       | None => (c, [])
+                       end
                 end
             end
       | HReadBody =>
           match c_reader c, c_buf c with
           | RLen 0, _ => eom_with rd server c
-          | RLen n, TD d :: rest =>
+          | RLen n, TD d0 :: rest0 =>
+              (* ContentLengthReader takes all bytes that are available, across token boundaries *)
+              let '(d, rest) := take_data (c_buf c) in
               if len d <=? n
               then kcons (recv_data server c d) (rd (set_c_reader (RLen (n - len d)) (set_c_buf rest c)))
               else kcons (recv_data server c (firstn (N.to_nat n) d))
@@ -134,7 +157,8 @@ Fixpoint h1_read (fuel : nat) (server : bool) (c : h1conn) : kres :=
           | RChunked, TD d :: rest => kcons (recv_data server c d) (rd (set_c_buf rest c))
           | RChunked, TE :: rest => eom_with rd server (set_c_buf rest c)
           | RChunked, TX :: rest => (set_c_buf rest c, [KClose false; recv_err server c])
-          | REof, TD d :: rest => kcons (recv_data server c d) (rd (set_c_buf rest c))
+          | REof, TD d0 :: rest0 =>
+              let '(d, rest) := take_data (c_buf c) in kcons (recv_data server c d) (rd (set_c_buf rest c))
           | _, _ => (c, [])
           end
       | _ => (c, [])
